@@ -171,6 +171,11 @@ func checkC10(c *CaseC10, fl *Fails) {
 	}
 	got := transform.ConvertExtendedSpatialIDToSpatialIDs(o)
 	z := max64(b.H, b.V)
+	if d := b.H - b.V; d > 20 || d < -10 {
+		// huge expansion (more than 2^20 IDs): checked in one pass with a bitmap instead of a reference set
+		c10Huge(b, got, fl)
+		return
+	}
 	wantSet := map[string]struct{}{}
 	for bx := range ref.ZoomSet([]ref.Box{b}, z, z) {
 		wantSet[bx.Spatial()] = struct{}{}
@@ -195,7 +200,70 @@ func checkC10(c *CaseC10, fl *Fails) {
 	}
 }
 
+// c10Huge: every output must be z/f/x/y at the larger zoom with (x, y, f) inside the box's child ranges, each child
+// exactly once (bitmap over the child index).
+func c10Huge(b ref.Box, got []string, fl *Fails) {
+	z := max64(b.H, b.V)
+	dh, dv := uint(z-b.H), uint(z-b.V)
+	wantN := int64(1) << (2*dh + dv)
+	if int64(len(got)) != wantN {
+		fl.Add("expansion-count", "expansion of %s has %d ids, expected %d", b.Ext(), len(got), wantN)
+	}
+	seen := make([]uint64, (wantN+63)/64)
+	bad := 0
+	for _, s := range got {
+		var f [4]int64
+		k, neg, ok := 0, false, len(s) > 0
+		for i := 0; i < len(s) && ok; i++ {
+			switch ch := s[i]; {
+			case ch == '/':
+				if neg {
+					f[k] = -f[k]
+				}
+				k, neg = k+1, false
+				ok = k < 4
+			case ch == '-':
+				neg = true
+			case ch >= '0' && ch <= '9':
+				f[k] = f[k]*10 + int64(ch-'0')
+			default:
+				ok = false
+			}
+		}
+		if neg {
+			f[k] = -f[k]
+		}
+		dx, dy, df := f[2]-(b.X<<dh), f[3]-(b.Y<<dh), f[1]-(b.F<<dv)
+		if !ok || k != 3 || f[0] != z || dx < 0 || dx >= 1<<dh || dy < 0 || dy >= 1<<dh || df < 0 || df >= 1<<dv {
+			if bad == 0 {
+				fl.Add("expansion-region", "expansion of %s contains %q, which is not one of its %d cells at zoom %d", b.Ext(), s, wantN, z)
+			}
+			bad++
+			continue
+		}
+		idx := ((dx<<dh)|dy)<<dv | df
+		if seen[idx/64]&(1<<uint(idx%64)) != 0 {
+			if bad == 0 {
+				fl.Add("expansion-duplicate", "expansion of %s returns %s twice", b.Ext(), s)
+			}
+			bad++
+			continue
+		}
+		seen[idx/64] |= 1 << uint(idx%64)
+	}
+	Count("c10_huge_expansion_ids", int64(len(got)))
+}
+
 func sweepC10(tier string, emit func(*CaseC10)) {
+	if tier != "quick" {
+		// every vertical zoom difference up to 24 (16.7 million IDs, ~1.5 GB) and horizontal differences 11, 12
+		for _, d := range []int64{21, 22, 23, 24} {
+			emit(&CaseC10{Exp: ref.Box{H: 2 + d, X: 5, Y: (int64(1) << uint(2+d)) - 3, V: 2, F: -3}})
+		}
+		for _, d := range []int64{11, 12} {
+			emit(&CaseC10{Exp: ref.Box{H: 6, X: 37, Y: 5, V: 6 + d, F: -(int64(5) << uint(d)) - 1}})
+		}
+	}
 	// large expansions (thousands to a million IDs), each also under other GOMAXPROCS values
 	maxQuad, maxBin := int64(7), int64(14)
 	if tier != "quick" {
